@@ -244,6 +244,7 @@ func registerChunkKinds(c *core.Ctx) {
 		}
 		return line, sb.String()
 	}})
+	registerChunkMoreKinds(c) // chunk_more.go
 }
 
 // reassemble what the receiver would see: consecutive equal keys concatenated (independent of go-fdo)
@@ -448,6 +449,7 @@ func RunC15(c *core.Ctx) {
 			checkMessages(c, p, o, mtu)
 		}
 	}
+	runC15More(c) // chunk_more.go: owner side of the budget, nearly equal keys, yields in the device's answer loop
 }
 
 func kvSize(k, v int) int {
